@@ -106,3 +106,14 @@ Theorem C03_completion_handler_is_the_sources : forall k failed,
   HandlerEq.runs_like (GenHandlers.gen_OnChannelOpened k) (Node.on_channel_opened k).
 Proof. exact HandlerEq.completion_handlers_are_source. Qed.
 Print Assumptions C03_completion_handler_is_the_sources.
+
+(* what a response of the responder does on the initiator (cancel; voucher result recorded; rejection fails the
+   channel; Accept / Restart; an un-paused Complete is the responder's final word, a paused one begins
+   finalization; otherwise the responder's pause flag follows the message, and ErrPause is returned when this
+   side is still paused), and what a pause / resume request does on the responder: Node.v's programs run like
+   those regenerated from impl/events.go OnResponseReceived and impl/receiving_requests.go receiveUpdateRequest *)
+Theorem C03_response_handlers_are_the_sources : forall k m s,
+  HandlerEq.same_run (Node.run (HandlerEq.with_self (fun self => GenHandlers.gen_OnResponseReceived self k m)) s) (Node.run (Node.on_response_received k m) s) /\
+  HandlerEq.same_run2 (Node.run (Node.bind (Node.exec Node.ISelf) (fun self => GenHandlers.gen_receiveUpdateRequest self k m)) s) (Node.run (Node.receive_update_request k m) s).
+Proof. exact HandlerEq.response_handlers_are_source. Qed.
+Print Assumptions C03_response_handlers_are_the_sources.
